@@ -624,6 +624,20 @@ pub fn replay(args: &Args, path: &str) -> i32 {
         }
     } else {
         let w = walk_of_query(&q).unwrap_or_else(|| engine::machinery_failure("replay: cannot classify the query"));
+        if let (true, Walk::Kind(k, o)) = (q.conditions.is_empty(), w) {
+            // a walk without conditions is judged by all clauses of C14 (as in the pre-pass of the explorer)
+            match crate::c14::check_case(&db, &g, k, o).0 {
+                None => println!("the search without conditions satisfies all clauses of C14"),
+                Some(f) => {
+                    println!("clause violated: {} ({})\nexpected: {}\nobserved: {}", f.clause, f.what, f.expected, f.observed);
+                    report.violation(&format!("part=lists|traversal-without-conditions-wrong|search={}|origin={}|clause={}", w.name(), g.kind(o), f.clause), &f.what, r.clone());
+                }
+            }
+            report.set("evaluations", json!(1));
+            report.set("distinct_nontrivial", json!(0));
+            report.set("rule", json!("replay of one stored case"));
+            return finish_replay(&report);
+        }
         let mut stats = ListStats::default();
         let mut failures = vec![];
         check_list(&db, &g, 0, &q.conditions, &[w], &mut stats, &mut |f| failures.push(f));
@@ -698,6 +712,39 @@ pub fn run(args: &Args) -> i32 {
     let full = full_atoms();
     let core = core_atoms(thorough);
 
+    // pass -1: the walks themselves, without conditions. A walk whose plain traversal is already
+    // wrong (C14's subject) is reported once under its own signature and not used to judge conditions.
+    let mut sound_walks: Vec<Vec<Walk>> = vec![];
+    let mut skipped_walks = 0u64;
+    for (gi, (name, spec, g)) in built.iter().enumerate() {
+        let (db, _) = build_memory(spec).unwrap();
+        let mut ok = vec![];
+        for w in walks(g) {
+            // all clauses of C14 (set, order, distances) for graph walks; the plain selection for the elements search
+            let failure: Option<(String, Value)> = match w {
+                Walk::Kind(k, o) => crate::c14::check_case(&db, g, k, o).0.map(|f| (f.clause.clone(), json!({"check": "C15", "part": "lists", "graph_name": name, "graph": spec.to_json(), "graph_listing": g.listing(), "conditions_shape": "", "walk": w.name(), "query": query_json(&f.query), "clause": f.clause, "expected": f.expected, "observed": f.observed}))),
+                Walk::Elements => {
+                    let mut stats = ListStats::default();
+                    let mut failure = None;
+                    check_list(&db, g, gi, &[], &[w], &mut stats, &mut |f| failure = Some(f));
+                    failure.map(|f| (f.clause.clone(), list_replay(name, spec, g, &f, &[])))
+                }
+            };
+            match failure {
+                None => ok.push(w),
+                Some((clause, doc)) => {
+                    skipped_walks += 1;
+                    let origin = match w {
+                        Walk::Kind(_, o) => g.kind(o),
+                        Walk::Elements => "none",
+                    };
+                    report.violation(&format!("part=lists|traversal-without-conditions-wrong|search={}|origin={origin}|clause={clause}", w.name()), "the search without conditions violates a clause of C14 (reachable set, order or distances); this walk is not used to judge conditions", doc);
+                }
+            }
+        }
+        sound_walks.push(ok);
+    }
+
     // pass 0: single unmodified atoms; those that fail alone are "bad atoms" used to classify longer lists
     let mut bad: Vec<HashMap<String, String>> = vec![HashMap::new(); built.len()]; // graph -> atom debug -> class
     {
@@ -709,7 +756,7 @@ pub fn run(args: &Args) -> i32 {
         }
         for (gi, (_, spec, g)) in built.iter().enumerate() {
             let (db, _) = build_memory(spec).unwrap();
-            let ws = walks(g);
+            let ws = sound_walks[gi].clone();
             for a in &all_atoms {
                 let list = vec![C { logic: L::And, modifier: M::None, atom: a.clone() }];
                 let mut stats = ListStats::default();
@@ -732,7 +779,7 @@ pub fn run(args: &Args) -> i32 {
     let run_lists = |n_items: usize, gen_lists: &(dyn Fn(usize, &mut dyn FnMut(&[C])) + Sync)| {
         engine::par_for(n_items, args.seed, |_w, i| {
             let dbs: Vec<DbMemory> = built.iter().map(|(_, spec, _)| build_memory(spec).unwrap().0).collect();
-            let wss: Vec<Vec<Walk>> = built.iter().map(|(_, _, g)| walks(g)).collect();
+            let wss: &Vec<Vec<Walk>> = &sound_walks;
             let mut local_out: HashSet<u64> = HashSet::new();
             let mut local_undef: HashMap<&'static str, u64> = HashMap::new();
             let mut seen: HashSet<String> = HashSet::new();
@@ -893,6 +940,7 @@ pub fn run(args: &Args) -> i32 {
         ]),
     );
     report.set("violating_cases", json!(violating.load(Ordering::SeqCst)));
+    report.set("walks_not_used_because_the_plain_traversal_is_wrong", json!(skipped_walks));
     report.assume("selections are compared as sets (order is C14's subject)");
     report.assume("a key-value condition on an element without the key is false for every comparison, including NotEqual (documented: 'has the key and its value satisfies')");
     report.finish()
